@@ -65,7 +65,12 @@ def _entries(ctx, facts):
             continue
         if not b.raw.get("pub") and S.owned_by(facts, b, set(x.key for x in facts.find(self_head=A.DB, container="inherent") if x.raw.get("pub"))):
             continue   # a private helper of an entry: looked at inside the entry
-        ev, ends = Q.sem(ctx, facts, b, opaque=[nid.key, ins.key] + ([add.key] if b.key != add.key else []))
+        # an entry other than `add` may do more than registering (add_batch builds the inner dispatcher first): what it does
+        # besides is kept out of the picture
+        extra = [add.key] + [x.key for x in facts.bodies.values() if not x.is_closure and (
+            (x.self_head == A.DB and x.name in ("build", "build_async", "create_thread_pool")) or (x.self_head == A.SB and x.name in ("fetch_all_reads", "fetch_all_writes"))
+            or (x.self_head == A.BCS and x.name == "create") or (x.self_head == A.BACC and x.name == "new"))] if b.key != add.key else []
+        ev, ends = Q.sem(ctx, facts, b, opaque=[nid.key, ins.key] + extra)
         if not any(x[0] == "call" and x[2].key == ins.key for e in ends for x in _deep_events(e.path.events)):
             continue
         names, deps = _params_by_type(b)
